@@ -30,6 +30,8 @@
 (*                        when the line number moved inside the title) and    *)
 (*                        as-is _parser_pop (a title node closed before its   *)
 (*                        end token keeps no title argument)                  *)
+(*   "PreModeLeftOnStrayEnd"  (model deviation of C02, Demo only) </pre> clears *)
+(*                        pre_parse only when a PRE node is on top of the stack *)
 (*   "TitleLoopNeedsSection"  (model deviation of C02, Demo only) the popping *)
 (*                        loop of subtitle_start_fn runs only while a section *)
 (*                        is open: before the first heading nothing is closed *)
@@ -485,11 +487,17 @@ CloseToTag(st, name) ==
   IF st.stuck THEN st
   ELSE IF f.kind = "HTML" /\ f.sarg = <<name>> THEN Pop(st)
   ELSE CloseToTag(Pop(st), name)
+\* ---- begin C02 (round 8): model deviation "PreModeLeftOnStrayEnd" (never switched on by C01) ----
+\* </pre> leaves the non-interpreting mode (ctx.pre_parse) only together with a PRE node on top of the stack: when
+\* the PRE node has been closed by something else (close_begline_lists: text at the start of the next line of a
+\* list item) the end tag is "unexpected" and the mode stays switched on
+PreModeKept(st) == "PreModeLeftOnStrayEnd" \in st.dev /\ st.pre /\ Top(st).kind # "PRE"
+\* ---- end C02 (round 8) ----
 TagEndFn(st0, name, txt) ==
   LET st1 == IF EndTagCloses(st0.stack, Len(st0.stack), name) THEN CloseBeglineLists(st0) ELSE st0 IN
   IF st1.stuck THEN st1
   ELSE IF name = "pre"
-  THEN LET st2 == [st1 EXCEPT !.pre = FALSE] IN
+  THEN LET st2 == [st1 EXCEPT !.pre = PreModeKept(st1)] IN
        IF Top(st2).kind # "PRE" THEN TextFn(st2, <<txt>>) ELSE Pop(st2)
   ELSE IF st1.pre THEN TextFn(st1, <<txt>>)
   ELSE IF ~HaveTag(st1, name)
